@@ -11,7 +11,7 @@ stdout last line: [{"ok":bool,"ids1":[..],"ids2":[..],"cfg_same":bool,"exc":str}
 import gc
 import json
 import sys
-from typing import Any, List, Optional, Tuple
+from typing import Any, Dict, List, Optional, Tuple
 
 from jsonargparse import ArgumentParser, Namespace, lazy_instance
 
@@ -20,7 +20,53 @@ import c08_classes as K
 MOD = "c08_classes."
 
 
+def to_partial(v):
+    """the same value as a hand-written partial configuration: specs are Namespace objects, the class given by NAME only"""
+    if isinstance(v, dict) and "cls" in v:
+        ns = Namespace(class_path=v["cls"])
+        if v["args"]:
+            ns.init_args = Namespace(**{k: to_partial(x) for k, x in v["args"].items()})
+        if "dict_kwargs" in v:
+            ns.dict_kwargs = dict(v["dict_kwargs"])
+        return ns
+    if isinstance(v, dict):
+        return {k: to_partial(x) for k, x in v.items()}
+    if isinstance(v, list):
+        return [to_partial(x) for x in v]
+    return v
+
+
+def reuse_as_base(p, case, notes):
+    """two-step histories: a partial configuration (hand-written, and the result of a parse with defaults=False) is
+    handed as cfg_base= / namespace= to a second parse; is it still what it was?"""
+    same = True
+    given = {k: v for (k, kind, _) in case["decls"] for v in [case["cfg"].get(k)] if v is not None and kind in ("listbase", "dictbase", "base", "optbase")}
+    if not given:
+        return True
+    bases = [Namespace(**{k: to_partial(v) for k, v in given.items()})]
+    try:
+        bases.append(p.parse_object({k: to_cfg(v) for k, v in given.items()}, defaults=False))
+    except Exception as e:
+        notes.append("parse_object(defaults=False): %s" % type(e).__name__)
+    for base in bases:
+        for how in ("cfg_base", "namespace"):
+            b0 = plain(base)
+            try:
+                if how == "cfg_base":
+                    p.parse_object({}, cfg_base=base)
+                else:
+                    p.parse_args([], namespace=base)
+            except Exception:   # the second parse may reject the partial configuration; it must not modify it either way
+                pass
+            if plain(base) != b0:
+                same = False
+                notes.append("the configuration handed as %s= to a second parse was modified: %r" % (how, base))
+    return same
+
+
 def to_cfg(v):
+    if isinstance(v, dict) and "cls" not in v:
+        return {k: to_cfg(x) for k, x in v.items()}
     if isinstance(v, dict):
         d = {"class_path": MOD + v["cls"], "init_args": {k: to_cfg(x) for k, x in v["args"].items()}}
         if "dict_kwargs" in v:
@@ -80,6 +126,8 @@ class Walk:
                 self.ids(child, getattr(built, name), out)
             out.append(self.num.setdefault(id(built), len(self.num) + 1))
         elif k in ("list", "tup"):
+            if isinstance(built, dict):
+                built = list(built.values())
             if not isinstance(built, (list, tuple)) or len(built) != len(x):
                 raise ValueError("list/tuple not instantiated element-wise: %r" % (built,))
             for n, b in zip(x, built):
@@ -88,7 +136,7 @@ class Walk:
 
 TYPES = {"base": K.Base, "optbase": Optional[K.Base], "listbase": List[K.Base], "tupbase": Tuple[K.Base, int],
          "tuptupbase": Tuple[Tuple[K.Base, int], str], "tup3base": Tuple[Tuple[Tuple[int, K.Base], List[K.Base]], int],
-         "anybase": Any}
+         "anybase": Any, "dictbase": Dict[str, K.Base]}
 
 
 def check_signatures(sig):
@@ -129,7 +177,10 @@ def run(case):
             w.ids(node, r1[k], ids1)
         for k, node in zip(keys, case["expect"]):
             w.ids(node, r2[k], ids2)
-        return {"ok": note == "", "ids1": ids1, "ids2": ids2, "cfg_same": plain(cfg) == before, "exc": note}
+        same = plain(cfg) == before
+        notes = [note] if note else []
+        same = reuse_as_base(p, case, notes) and same
+        return {"ok": notes == [], "ids1": ids1, "ids2": ids2, "cfg_same": same, "exc": "; ".join(notes)}
     except BaseException as e:  # noqa
         return {"ok": False, "ids1": [], "ids2": [], "cfg_same": False, "exc": "%s: %s" % (type(e).__name__, str(e)[:300])}
 
